@@ -89,7 +89,7 @@ def run(ctx):
                'model names have at most 30 characters (the documented column format is 30A; longer names are truncated by the convolved-flux writer)',
                'values compared with rtol 1e-12 (erg/s goes through /d^2 * d^2)', 'float64 arrays (what the objects hold) are stored as float64')
     ctx.require_events('SED.read:post', 'SEDCube.read:post', 'roundtrip:sed', 'roundtrip:cube', 'roundtrip:convolved', 'cube:get_sed', 'roundtrip:sed-object-reused', 'roundtrip:cube-object-reused', 'roundtrip:sed-other-unit', 'cube:get_sed-after-values-reassigned')
-    ctx.require_regimes('sed:asc', 'sed:desc', 'cube:asc', 'cube:desc', 'cube:no-unc', 'cube:no-apertures', 'cube:memmap',
+    ctx.require_regimes('cells:exactly-zero', 'sed:asc', 'sed:desc', 'cube:asc', 'cube:desc', 'cube:no-unc', 'cube:no-apertures', 'cube:memmap',
                         'convolved:no-apertures', 'unit:erg/s', 'unit:Jy', 'cube:valid-flags', 'convolved:error-in-another-unit', 'cube:unc-in-another-unit', 'sed:error-in-another-unit', 'cube:axis-unit:nm', 'cube:axis-unit:GHz', 'cube:axis-unit:mm', 'sed:axis-unit:nm', 'sed:axis-unit:GHz', 'sed:axis-unit:mm')
     cfg = list(itertools.product(['asc', 'desc'], ['nu', 'wav'], list(FLUX_UNITS), [True, False], [True, False], [True, False]))
     reps = 1 if ctx.quick else 20
@@ -109,6 +109,15 @@ def run(ctx):
                 wav_asc = np.sort(gen.loguniform(rng, 0.05, 3000.0, n_w))
             val = encode(n_m, n_a, wav_asc, rng)
             unc = val * 0.01 * (1 + np.arange(n_w))[None, None, :] / n_w
+            if ic % 4 == 1:
+                # cells whose value is exactly zero (no emission at that wavelength) with a non-zero uncertainty, and cells with a
+                # zero uncertainty: "the same value for every cell" includes them
+                zc = rng.random(val.shape) < 0.15
+                zc[0, 0, 0] = True
+                val = np.where(zc, 0.0, val)
+                zu = (rng.random(val.shape) < 0.1) & ~zc
+                unc = np.where(zu, 0.0, unc)
+                ctx.regime('cells:exactly-zero')
             aps = gen.aperture_table(rng, n_a) if with_ap else None
             sl = slice(None) if axis == 'asc' else slice(None, None, -1)
             apu = [u.au, u.pc, u.cm][int(rng.integers(3))]      # length unit the apertures are supplied in
